@@ -128,7 +128,9 @@ func c01Verifiers(c *Ctx) {
 		})
 	}
 	lt := func(holds bool, l, rr string) edgePred {
-		return whenCond(holds, func(a string) bool { return strings.HasPrefix(a, "("+l) && strings.Contains(a, " < ") && strings.Contains(a[strings.Index(a, " < "):], rr) })
+		return whenCond(holds, func(a string) bool {
+			return strings.HasPrefix(a, "("+l) && strings.Contains(a, " < ") && strings.Contains(a[strings.Index(a, " < "):], rr)
+		})
 	}
 	if vdp != nil {
 		mustCross(vdp, "sourceAlh == SourceTxHeader.Alh()", eq("param:sourceAlh", "SourceTxHeader", ").Alh["))
@@ -452,9 +454,13 @@ func c01Client(c *Ctx) {
 		if ninc == 0 {
 			c.fail(r, fnName(f)+":match-counted-only-if-digest-equals-HValue", c.pos(f.Pos()), "no counted match of the document entry found")
 		}
-		need("exactly one matching entry", whenCond(true, func(a string) bool { return strings.Contains(a, " == const:1)") || strings.HasPrefix(a, "(const:1 == ") }))
+		need("exactly one matching entry", whenCond(true, func(a string) bool {
+			return strings.Contains(a, " == const:1)") || strings.HasPrefix(a, "(const:1 == ")
+		}))
 		need("document equals the proven document", whenCond(true, func(a string) bool { return strings.HasPrefix(a, "call:google.golang.org/protobuf/proto.Equal(") }))
-		need("entries tree root == header Eh", whenCond(true, func(a string) bool { return strings.Contains(a, ".Eh") && strings.Contains(a, ").Root[") && strings.Contains(a, " == ") }))
+		need("entries tree root == header Eh", whenCond(true, func(a string) bool {
+			return strings.Contains(a, ".Eh") && strings.Contains(a, ").Root[") && strings.Contains(a, " == ")
+		}))
 		// the known state's hash is compared with both the source and the target Alh, and a mismatch rejects
 		nk := 0
 		allInstrs(f, false, func(in ssa.Instruction) {
@@ -717,7 +723,6 @@ func c01VerdictTested(c *Ctx) {
 		c.undecided(r, "floor", fmt.Sprintf("only %d verifier calls found in client-side packages (9 confirmed by hand)", n))
 	}
 }
-
 
 // c01SignedState: the state a server signs next to a proof is the state the proof leads to: its hash is computed from
 // DualProof.TargetTxHeader in every handler (the client checks the signature over the target state; a state computed
